@@ -6,7 +6,7 @@ import re, collections
 from facts import callee, op_local, op_place, op_is_const, const_int
 import cfg, shared, prov
 
-NUM = r"(?:[ui](?:8|16|32|64|128|size)|f64|f32)"
+NUM = r"(?:[ui](?:8|16|32|64|128|size)|f64|f32|[A-Z])"      # [A-Z]: a generic number type inside a helper (`parse::<T>()`)
 CARRIER = re.compile(
     r"^&?(?:mut )?(?:%(N)s|std::option::Option<&?%(N)s>|std::result::Result<%(N)s, .*>|std::ops::ControlFlow<.*, %(N)s>"
     r"|\(%(N)s, bool\)|\(%(N)s, %(N)s\)|\(%(N)s, %(N)s, %(N)s\)|std::ops::Range(?:Inclusive|From|To|ToInclusive)?<%(N)s>"
@@ -487,6 +487,33 @@ class Taint:
             return _memo[key]
         _memo[key] = set()          # cycle (loop-carried value): nothing known
         out = set()
+        # `(_x as Some).0` where _x was built as Some(v) / None (a helper returning Option<index>,
+        # inlined or matched right away): the bounds v had where it was wrapped
+        if pl["p"] and any(isinstance(e, dict) and e.get("v") in ("Some", "Ok") for e in pl["p"]) and depth < 10:
+            per = []
+            stack = [l]; seen_l = set(); okshape = True
+            while stack and okshape:
+                cur = stack.pop()
+                if cur in seen_l:
+                    continue
+                seen_l.add(cur)
+                for kind, db, x in prov.build_defs(b).get(cur, ()):
+                    if kind != "stmt" or x["l"]["p"]:
+                        okshape = False; break
+                    r = x["r"]
+                    if r["k"] == "agg" and r["a"] in ("std::option::Option::Some", "std::result::Result::Ok") and r["o"]:
+                        per.append(s.bounds_at(b, db, r["o"][0], depth + 1, _memo))
+                    elif r["k"] == "agg" and r["a"] in ("std::option::Option::None",):
+                        continue
+                    elif r["k"] == "use" and not op_is_const(r["o"]) and not op_place(r["o"])["p"]:
+                        stack.append(op_place(r["o"])["l"])
+                    else:
+                        okshape = False; break
+            if okshape and per:
+                out = set.intersection(*per)
+                out |= s.cmp_bounds(b, bb, s.copy_roots(b, o))
+                _memo[key] = out
+                return out
         ty = b.locals[l].lstrip("&")
         if re.match(r"^(mut )?u(8|16|32|64|128|size)$", ty):
             out |= {"lo", "nonneg"}
